@@ -15,16 +15,21 @@ The engine below the API layer is abstract: per channel it delivers some number 
 engine interface (`d u ≤ requested`, for the constant-rate engine proved on the count model: `engine_output_le`)
 is a hypothesis of the theorems.  The pull loop of `soxr_output` is over-approximated by *any* list of iterations.
 
-The model follows the code **as written**, and the pinned code has two defects here, selected by `Variant`:
+The model follows the code **as written**.  The tree as first pinned had two defects here; both were repaired in
+`/repo` (commits e1592d4 and 4b04ca8) and the model follows the repaired code.  The old expressions are kept as a
+`Variant` so that the historical witnesses stay checkable and so that the theorems say exactly what the repairs bought:
 
-* `ptrReadAlways` (F2): soxr.c:683/689 evaluate `((soxr_bufs_t)out)[u]` as an argument of `soxr_output_1ch` whatever
-  the layout, i.e. an 8-byte read at `out + 8u` also when `out` is an interleaved sample buffer;
-* `pullAdvancesArray` (F15): soxr.c:716 `out = (char *)out + osize * odone` is applied also when `out` is the
-  caller's pointer array, so after an iteration that delivered something the next one reads its channel pointers
-  from `array + osize·odone`.
+* `ptrReadAlways` (F2, repaired by e1592d4): soxr.c:683/689 evaluated `((soxr_bufs_t)out)[u]` as an argument of
+  `soxr_output_1ch` whatever the layout, i.e. an 8-byte read at `out + 8u` also when `out` is an interleaved sample
+  buffer.  Now: `separated ? ((soxr_bufs_t)out)[u] : out`.
+* `pullAdvancesArray` (F15, repaired by 4b04ca8): soxr.c:716 `out = (char *)out + osize * odone` was applied also when
+  `out` is the caller's pointer array, so after an iteration that delivered something the next one read its channel
+  pointers from `array + osize·odone`.  Now: at the top of each iteration after the first delivery the channel
+  pointers are re-read from the caller's array (`out0[u]`, never advanced) and advanced by `size·odone0` each.
 
-`Variant.current` is the one-line switch: it must name the variant of the code in `/repo` (the check replays the
-witnesses of `Properties/C07` on the real code and reports when they stop reproducing).
+`Variant.current` is the one-line switch: it must name the variant of the code in `/repo`.  The check replays the
+witness calls of `Properties/C07` on the real code with exactly-sized buffers on every run: a sanitizer report there
+while `current = repaired` is a violation (regression), silence while `current = original` would be one too.
 -/
 namespace Soxr.Footprint
 
@@ -66,13 +71,13 @@ structure Variant where
   pullAdvancesArray : Bool
   deriving DecidableEq, Repr
 
-/-- the pinned tree (F2 and F15 present). -/
-def Variant.pinned : Variant := ⟨true, true⟩
-/-- the code with both candidate repairs (`separated ? ((soxr_bufs_t)out)[u] : out`; per-channel advance). -/
+/-- the tree as first pinned (F2 and F15 present) — historical. -/
+def Variant.original : Variant := ⟨true, true⟩
+/-- the code with both repairs (`separated ? ((soxr_bufs_t)out)[u] : out`; per-channel advance). -/
 def Variant.repaired : Variant := ⟨false, false⟩
-/-- **The switch.**  Which variant `/repo` currently is.  Change to `.repaired` (or a mixed `⟨false, true⟩` …) when
-    the framework owner commits the corresponding repair to `/repo`; nothing else needs editing. -/
-def Variant.current : Variant := Variant.pinned
+/-- **The switch.**  Which variant `/repo` currently is (`.repaired` since e1592d4 + 4b04ca8; `.original` before;
+    a mixed `⟨false, true⟩` if only one repair is present).  Nothing else needs editing. -/
+def Variant.current : Variant := Variant.repaired
 
 /-- frames in an input block. -/
 def srcLen (ilen : Nat) : Src → Nat
@@ -104,7 +109,7 @@ def inputAcc (c : Cfg) (s : Src) (len : Nat) : List Access :=
   else [⟨.inBuf s, 0, len * c.ch * c.isz, false⟩]
 
 /-- where channel `u`'s samples go in an iteration of the pull loop that starts after `written` frames, split output:
-    repaired code: the caller's channel block, `written` frames in; pinned code: through whatever lies at
+    repaired code: the caller's channel block, `written` frames in; original code: through whatever lies at
     `array + adv + 8u` — another channel's pointer if that is still inside the array and aligned, garbage otherwise. -/
 def splitTarget (v : Variant) (c : Cfg) (written u : Nat) : Obj × Nat :=
   let adv := written * c.ch * c.osz
@@ -194,7 +199,7 @@ def Deliv (c : Cfg) (olen : Nat) : Nat → List Iter → Prop
   | _, [] => True
   | w, (d, _) :: rest => w ≤ olen ∧ (∀ u, u < c.ch → d u ≤ olen - w) ∧ Deliv c olen (w + d (c.ch - 1)) rest
 
-/-- The hypothesis that excludes the two known defects (vacuous for `Variant.repaired`):
+/-- The hypothesis that excludes the two defects of the original code (vacuous for `Variant.repaired`):
     F2 — interleaved output: every iteration starts with at least `ch` pointers' worth of bytes left in the buffer;
     F15 — split output: no iteration starts after something has been delivered. -/
 def Excl (v : Variant) (c : Cfg) (olen : Nat) : Nat → List Iter → Prop
